@@ -528,6 +528,55 @@ theorem tcpConn_good (w : World) (src : Bytes) (script : List Stream.Ev) (g : Go
     have g2 := tcpServe_good ((Stream.dataOf script).length + script.length + 4) _ w.clients.length { script := script } g1
     exact g2.of (removeclient_inv _ _ _ g2.inv) (tame_removeclient _ _)
 
+/-! ### server removal (`clientwr` errexit: `freeserver`) -/
+
+theorem freeSlots_good (n : Nat) (w : World) (si : Nat) (g : Good w) : Good (freeSlots w si n) := by
+  induction n with
+  | zero => exact g
+  | succ n ih => exact ih.of (freerqoutdata_inv _ _ si n ih.inv) (tame_freerqoutdata _ si n)
+
+theorem rmserver_good (w : World) (si : Nat) (g : Good w) : Good (rmserver w si) :=
+  (freeSlots_good 256 w si g).of
+    (updSrv_noslots_inv _ _ si _ (fun _ => rfl) (freeSlots_good 256 w si g).inv)
+    (tame_updSrv _ si _ (fun _ => rfl) (fun _ h => h))
+
+theorem freerq_servers' (w : World) (o : Nat) : (freerq w o).servers = w.servers := by
+  unfold freerq; cases getRq w o with
+  | none => rfl
+  | some r => simp only; split <;> rfl
+
+theorem slotOf_set_same' (s : Server) (i : Nat) (x : Slot) (hi : i < s.slots.length) :
+    slotOf { s with slots := s.slots.set i x } i = x := by
+  unfold slotOf; simp [List.getD_eq_getElem?_getD, List.getElem?_set, hi]
+
+theorem slotOf_set_other' (s : Server) (i j : Nat) (x : Slot) (hij : i ≠ j) :
+    slotOf { s with slots := s.slots.set i x } j = slotOf s j := by
+  unfold slotOf; simp [List.getD_eq_getElem?_getD, List.getElem?_set, hij]
+
+/-- what `freerqoutdata` leaves of the server it works on: the same server with slot `i` blank -/
+theorem getSrv_freerqoutdata_same (w : World) (si i : Nat) (s : Server) (hs : getSrv w si = some s) :
+    getSrv (freerqoutdata w si i) si = some { s with slots := s.slots.set i {} } := by
+  unfold freerqoutdata
+  rw [hs]
+  simp only
+  split
+  · rw [getSrv_updSrv_same _ si _ s (by unfold getSrv at hs ⊢; rw [freerq_servers']; exact hs)]
+  · rw [getSrv_updSrv_same _ si _ s hs]
+
+/-- after the first `n` slots have been released they are blank, and the table keeps its size -/
+theorem freeSlots_blank (n : Nat) (w : World) (si : Nat) (s : Server) (hs : getSrv w si = some s) :
+    ∃ s', getSrv (freeSlots w si n) si = some s' ∧ s'.slots.length = s.slots.length ∧ ∀ j, j < n → j < s.slots.length → slotOf s' j = {} := by
+  induction n with
+  | zero => exact ⟨s, hs, rfl, fun j hj => absurd hj (Nat.not_lt_zero j)⟩
+  | succ n ih =>
+    obtain ⟨s', h1, h2, h3⟩ := ih
+    refine ⟨{ s' with slots := s'.slots.set n {} }, getSrv_freerqoutdata_same _ si n s' h1, by simp [h2], ?_⟩
+    intro j hj hl
+    by_cases hjn : j = n
+    · subst hjn; exact slotOf_set_same' s' j {} (by rw [h2]; exact hl)
+    · rw [slotOf_set_other' s' n j {} (fun e => hjn e.symm)]
+      exact h3 j (by omega) hl
+
 /-- **every operation keeps the counts right** -/
 theorem step_good (w : World) (op : Op) (g : Good w) : Good (step w op) := by
   cases op with
@@ -547,6 +596,7 @@ theorem step_good (w : World) (op : Op) (g : Good w) : Good (step w op) := by
   | udpnas ip => exact g.of (same_inv w _ _ rfl rfl rfl rfl g.inv) (tame_same w _ rfl rfl rfl)
   | udpsend n pkt => exact udpLoopTop_good _ (udpRecv_good w n pkt g)
   | tcpconn src script => exact tcpConn_good w src script g
+  | rmserver si => exact rmserver_good w si g
 
 /-! ### every history -/
 
@@ -629,6 +679,36 @@ theorem history_rmclient_clears (w : World) (h : Initial w) (ops : List Op) (ci 
   rw [List.foldl_append]
   simp only [List.foldl_cons, List.foldl_nil, step]
   exact removeclient_clears _ ci c hc (by rw [g.wf.cache ci c hc]; exact Nat.le_refl _)
+
+/-- **server removal**: whatever the history, once server `si` has been shut down it holds no request at all - every one of its
+    256 slots is blank - and it is marked gone (so no request is routed to it any more); with `history_counts` the references
+    its slots held have been given back exactly once each -/
+theorem history_rmserver_clears (w : World) (h : Initial w) (ops : List Op) (si : Nat) (s : Server)
+    (hs : getSrv (runOps w ops) si = some s) :
+    ∃ s', getSrv (runOps w (ops ++ [.rmserver si])) si = some s' ∧ s'.gone = true ∧ ∀ j, (slotOf s' j).rq = none := by
+  have g := history_good w h ops
+  unfold runOps
+  rw [List.foldl_append]
+  simp only [List.foldl_cons, List.foldl_nil, step]
+  obtain ⟨s', h1, h2, h3⟩ := freeSlots_blank 256 _ si s hs
+  have hl := g.wf.slots si s hs
+  refine ⟨_, getSrv_updSrv_same _ si _ s' h1, rfl, ?_⟩
+  intro j
+  by_cases hj : j < 256
+  · have := h3 j hj (by rw [hl]; exact hj)
+    show (slotOf s' j).rq = none
+    rw [this]
+  · show (slotOf s' j).rq = none
+    unfold slotOf
+    rw [List.getD_eq_getElem?_getD, List.getElem?_eq_none (by rw [h2, hl]; omega)]
+    rfl
+
+/-- a removed server is never chosen again: `choosesrvconf` sees a conf without server object -/
+theorem gone_not_routed (w : World) (si : Nat) (s : Server) (hs : getSrv w si = some s) (hg : s.gone = true) :
+    chooseEntry w si = none ∧ srvGone w si = true := by
+  unfold chooseEntry srvGone
+  rw [hs]
+  simp [hg]
 
 -- the hypotheses are met: a configured world with two servers is Initial
 example : Initial { H := { md5 := fun _ => [], hmacMd5 := fun _ _ => [] }, rx := fun _ _ => none, opts := {}, cliConfs := [],
